@@ -100,3 +100,18 @@ Print Assumptions C16_step_prepared.
 Theorem C16_steps_prepared_stay_prepared : forall fs cwd outs1 rsp1 fs1 outs2 rsp2 e fs2, prepare_step fs cwd outs1 rsp1 = (None, fs1) -> prepare_step fs1 cwd outs2 rsp2 = (e, fs2) -> forall o d, In o outs1 -> lp_parent (path_new o) = Some d -> is_dir_l fs2 cwd d = true.
 Proof. exact prepare_steps_all_ready. Qed.
 Print Assumptions C16_steps_prepared_stay_prepared.
+
+(* from the audit of these statements (Proofs/AuditR6.v): the third part of C16_step_prepared does not
+   say *where* a regular file may change (W_C16_step_prepared_frame_allows_clobbering_every_file).
+   Exactly: without a response file nothing that existed changes and what is new is a directory;
+   with one, the same holds everywhere except at one location, which was not a directory and now
+   holds the content *)
+Theorem C16_step_prepared_exact : forall fs cwd outs rsp fs', prepare_step fs cwd outs rsp = (None, fs') -> match rsp with | None => (forall q k, lookup fs q = Some k -> lookup fs' q = Some k) /\ (forall q k, lookup fs q = None -> lookup fs' q = Some k -> k = KDir) | Some (n, c) => exists loc, lookup fs' loc = Some (KFile c) /\ lookup fs loc <> Some KDir /\ forall q, q <> loc -> (forall k, lookup fs q = Some k -> lookup fs' q = Some k) /\ (forall k, lookup fs q = None -> lookup fs' q = Some k -> k = KDir) end.
+Proof. exact prepare_step_exact. Qed.
+Print Assumptions C16_step_prepared_exact.
+
+(* and well-formedness (with the working directory) survives a whole preparation, successful or not:
+   the premises of C16_output_dirs_succeed_unless_blocked hold again for the next step *)
+Theorem C16_prepare_step_keeps_wf : forall fs cwd outs rsp e fs', fs_wf fs -> node_at fs cwd = Some KDir -> prepare_step fs cwd outs rsp = (e, fs') -> fs_wf fs' /\ node_at fs' cwd = Some KDir.
+Proof. exact prepare_step_wf. Qed.
+Print Assumptions C16_prepare_step_keeps_wf.
